@@ -118,7 +118,22 @@ class C15(Plugin):
         else:
             try:
                 c = curies.Converter(qprops.mk_records(recs.v))
-                o10 = Some(pair_or_exc(lambda: Reference.from_curie(inst[1].curie, converter=c)))
+                # every route by which a converter can be supplied as validation context must standardise the prefix (or reject
+                # an unknown one): from_curie of the three classes, string validation with context, from_reference of every class on
+                # every pydantic instance it accepts (also instances that already are of the target class)
+                cu = inst[1].curie
+                routes = [lambda: Reference.from_curie(cu, converter=c),
+                          lambda: NamableReference.from_curie(cu, name, converter=c),
+                          lambda: NamedReference.from_curie(cu, name, converter=c),
+                          lambda: Reference.model_validate(cu, context=c),
+                          lambda: NamableReference.model_validate(cu, context=c)]
+                for x in inst[1:]:
+                    routes.append(lambda x=x: Reference.from_reference(x, converter=c))
+                    routes.append(lambda x=x: NamableReference.from_reference(x, converter=c))
+                for x in inst[2:]:
+                    routes.append(lambda x=x: NamedReference.from_reference(x, converter=c))
+                answers = [pair_or_exc(f) for f in routes]
+                o10 = Some(answers[0] if all(a == answers[0] for a in answers) else [-4, [a for a in answers if a != answers[0]][0]])
             except Exception:
                 o10 = Some([-3])
         os.makedirs(os.path.join(ROOT, "_build", "tmp"), exist_ok=True)
